@@ -49,12 +49,13 @@ CONSTANTS MaxLen,     \* seq mode: maximal number of lines
 VARIABLES lines,      \* the docstring: sequence of line-class records (never changes)
           expect,     \* struct mode: the structure written, in the vocabulary of `sections` (never changes)
           sig,        \* struct mode: per line, what the parent's signature supplies for the item it starts
+          wrap,       \* struct mode: shape of the parent's return annotation: "plain" T | "iter" Iterator[T] | "gen" Generator[Y, S, R]
           opts,       \* [option -> "U" | "T" | "F"]
           pcand,      \* candidate parent kinds (narrowed by every test the code makes)
           excl,       \* negative path condition: pairs <<option, parent kind>> that must not hold together
           pc, offset, in_code, cur, sections, crash, flags
-vars == <<lines, expect, sig, opts, pcand, excl, pc, offset, in_code, cur, sections, crash, flags>>
-input == <<lines, expect, sig>>
+vars == <<lines, expect, sig, wrap, opts, pcand, excl, pc, offset, in_code, cur, sections, crash, flags>>
+input == <<lines, expect, sig, wrap>>
 
 OptNames == {"ignore_init_summary", "returns_multiple_items", "returns_named_value",
              "receives_multiple_items", "receives_named_value", "returns_type_in_property_summary"}
@@ -86,7 +87,7 @@ Core == {Blank("e"), Text("plain"), Text("colon"), Adm(FALSE), FenceL(0), FenceL
 Mid == Core \cup {Blank("w"), Adm(TRUE), PromptF(4), Sec("parameters", TRUE)} \cup {Sec(K, FALSE) : K \in SecKinds}
           \cup {Item(4, f) : f \in {"F2", "F3", "F6"}} \cup {Item(6, "F1"), Item(8, "F4")}
 Rich == Mid \cup {Sec(K, TRUE) : K \in SecKinds}
-\* small alphabet on which the three known crashes are reachable with three lines
+\* regression domain: small alphabet on which the repaired crashes were reachable with three lines
 Defect == {Text("plain"), Item(4, "F1"), Item(4, "F4"), Item(4, "F5"),
            Sec("returns", FALSE), Sec("receives", FALSE), Sec("attributes", FALSE), Sec("parameters", FALSE)}
 Alphabet == CASE Alpha = "core" -> Core [] Alpha = "mid" -> Mid [] Alpha = "rich" -> Rich [] OTHER -> Defect
@@ -148,7 +149,7 @@ ReadBlock(off) ==
 \* ---- item interpretation -----------------------------------------------------------------------------
 \* element record: first/body = consumed lines; name: "n" the name written on line `first`, "e" the empty string,
 \* "x" other text of the line, "-" the element type has no name; ann: "doc" the type written on line `first`,
-\* "sig" taken from the parent, "none", "x" other text of the line, "prev" value left over from an earlier item,
+\* "sig" taken from the parent (the part that belongs to the item), "sigw" the parent's whole return annotation, "none", "x" other text of the line,
 \* "p" whatever the parent's return annotation supplies (seq mode); dflt: "sig" | "none" | "-";
 \* d: the description starts after the first colon of line `first` ("c") or is the whole line ("l")
 El(it, name, ann, dflt, d) == [first |-> it.first, body |-> RStripBlank(it.body), name |-> name, ann |-> ann, dflt |-> dflt, d |-> d]   \* description.rstrip("\n")
@@ -185,36 +186,28 @@ MapAccepted(items, K, acc) ==
                             [] K = "modules" -> ModuleEl(it)
                             [] OTHER -> RaiseEl(it)))
 
-\* _read_attributes_section: `annotation` is initialised once before the loop and survives a failed lookup
-RECURSIVE AttrFold(_, _, _)
-AttrFold(items, annvar, acc) ==
+\* _read_attributes_section: `annotation = None` at the top of every iteration; the look-up docstring.parent[name].annotation
+\* runs under suppress(AttributeError, KeyError, TypeError, ValueError, AliasResolutionError, CyclicAliasError): it never raises
+AttrEl(it) ==
+  LET f == Form(it)
+      found == f = "F1" /\ sig[it.first + 1].ann          \* docstring.parent[name].annotation
+  IN El(it, IF f \in {"F1", "F2"} THEN "n" ELSE IF f = "F4" THEN "e" ELSE "x",
+        IF f = "F2" THEN "doc" ELSE IF f = "F?" THEN "x" ELSE IF found THEN "sig" ELSE "none", "-", "c")
+RECURSIVE AttrFold(_, _)
+AttrFold(items, acc) ==
   IF items = <<>> THEN acc
-  ELSE LET it == Head(items) f == Form(it) IN
-       IF ~Accepted(it) THEN AttrFold(Tail(items), annvar, acc)
-       ELSE LET typed == f \in {"F2", "F?"}                       \* " " in name_with_type: annotation parsed from the line
-                found == f = "F1" /\ sig[it.first + 1].ann          \* docstring.parent[name].annotation
-                a == IF f = "F2" THEN "doc" ELSE IF f = "F?" THEN "x" ELSE IF found THEN "sig" ELSE IF annvar = "set" THEN "prev" ELSE "none"
-            IN AttrFold(Tail(items), IF typed \/ found THEN "set" ELSE annvar,
-                        Append(acc, El(it, IF f \in {"F1", "F2"} THEN "n" ELSE IF f = "F4" THEN "e" ELSE "x", a, "-", "c")))
-\* hazards of `docstring.parent[name].annotation` under suppress(AttributeError, KeyError, TypeError), in item order:
-\*   "empty"  name "" : _get_parts raises ValueError as soon as there is a parent
-\*   "alias"  a plain name: when the member is an alias that cannot be resolved, .annotation raises AliasResolutionError
-RECURSIVE AttrHazards(_, _)
-AttrHazards(items, acc) ==
-  IF items = <<>> THEN acc
-  ELSE LET it == Head(items) f == Form(it) IN
-       AttrHazards(Tail(items), IF ~Accepted(it) THEN acc ELSE IF f = "F4" THEN Append(acc, "empty")
-                                ELSE IF f = "F1" /\ ~sig[it.first + 1].ann THEN Append(acc, "alias") ELSE acc)
-ParentClass == [none |-> {"none"}, alias |-> {"aliasmod"}, other |-> Parents \ {"none", "aliasmod"}]
-HazardOutcome(hz, cls) ==      \* the exception of the first look-up that raises, "" when none does
-  CASE cls = "none" -> ""
-    [] cls = "alias" -> IF hz[1] = "empty" THEN "ValueError" ELSE "AliasResolutionError"
-    [] OTHER -> IF \E j \in 1..Len(hz) : hz[j] = "empty" THEN "ValueError" ELSE ""
+  ELSE AttrFold(Tail(items), IF Accepted(Head(items)) THEN Append(acc, AttrEl(Head(items))) ELSE acc)
 
 \* _get_name_annotation_description + annotation choice of the returns / yields / receives readers
-RetEl(it, named, multi) ==
+\* _annotation_from_parent(gen_index = 2 returns / 0 yields / 1 receives): Generator -> slice.elements[gen_index];
+\* Iterator -> slice only for gen_index 0; otherwise the annotation as it is.  "sig": the part that belongs to this section
+\* (then, with several items, the element of the tuple), "sigw": the whole return annotation
+ParentRet(K) ==
+  LET gen_index == CASE K = "returns" -> 2 [] K = "yields" -> 0 [] OTHER -> 1 IN
+  IF wrap = "gen" THEN "sig" ELSE IF wrap = "iter" /\ gen_index = 0 THEN "sig" ELSE IF wrap = "iter" THEN "sigw" ELSE "sig"
+RetEl(it, K, named) ==
   LET f == Form(it)
-      parentann == IF Mode = "seq" THEN "p" ELSE IF sig[it.first + 1].ann THEN "sig" ELSE "none"   \* "p": whatever the parent supplies
+      parentann == IF Mode = "seq" THEN "p" ELSE IF sig[it.first + 1].ann THEN ParentRet(K) ELSE "none"   \* "p": whatever the parent supplies
   IN IF named        \* _RE_NAME_ANNOTATION_DESCRIPTION: `name? (type)?: desc`, else everything is the description
        THEN CASE f = "F1" -> El(it, "n", parentann, "-", "c")
               [] f = "F2" -> El(it, "n", "doc", "-", "c")
@@ -411,14 +404,28 @@ SeqLines ==
               lines = <<a>> \o m \o <<z>> /\ CleandocFixedPoint(lines)
 InitSeq ==
   /\ SeqLines
-  /\ sig = [j \in 1..Len(lines) |-> NoSig]
+  /\ sig = [j \in 1..Len(lines) |-> NoSig] /\ wrap = "plain"
   /\ expect = <<>>
   /\ opts = [o \in OptNames |-> "U"]
   /\ pcand = Parents
+\* the return annotation of the documented object: what a returns-like section without written types may be taken from.
+\* Returns: any shape (a function may return an iterator: then the whole annotation is the type); Yields: Iterator / Generator;
+\* Receives: Generator
+WrapOK(st, w) ==
+  LET S == {j \in 1..Len(st) : RetSann(st[j])} IN
+  IF S = {} THEN w = "plain"
+  ELSE \A j \in S : st[j].kind = "returns" \/ (st[j].kind = "yields" /\ w # "plain") \/ (st[j].kind = "receives" /\ w = "gen")
+\* what the property demands for an item that takes its type from the signature: the part of the return annotation that belongs to
+\* the section - for Returns under `-> Iterator[T]` that is the whole annotation
+ExpectWrap(exp, w) ==
+  [j \in 1..Len(exp) |->
+     IF exp[j].kind = "returns" /\ w = "iter"
+       THEN [exp[j] EXCEPT !.items = [m \in 1..Len(exp[j].items) |-> IF exp[j].items[m].ann = "sig" THEN [exp[j].items[m] EXCEPT !.ann = "sigw"] ELSE exp[j].items[m]]]
+       ELSE exp[j]]
 InitStruct ==
-  \E st \in Structs, so \in StructOpts :
-    /\ StructOK(st, so)
-    /\ LET r == RenderLines(st, so) IN lines = r.lines /\ sig = r.sig /\ expect = r.expect
+  \E st \in Structs, so \in StructOpts, w \in {"plain", "iter", "gen"} :
+    /\ StructOK(st, so) /\ WrapOK(st, w) /\ wrap = w
+    /\ LET r == RenderLines(st, so) IN lines = r.lines /\ sig = r.sig /\ expect = ExpectWrap(r.expect, w)
     /\ opts = [o \in OptNames |-> CASE o = "returns_multiple_items" -> Val(so.returns_multiple_items)
                                       [] o = "returns_named_value" -> Val(so.returns_named_value)
                                       [] o = "receives_multiple_items" -> Val(so.receives_multiple_items)
@@ -490,23 +497,14 @@ ReadItemsSection ==
         ELSE Return(IF els # <<>> THEN Append(flushed, SecRec(K, TitleOf(L(offset)), offset, <<>>, els, <<>>)) ELSE flushed, r.off)
   /\ UNCHANGED <<input, opts, pcand, excl>>
 
-\* attributes: docstring.parent[name] - suppress(AttributeError, KeyError, TypeError) does not cover the ValueError
-\* raised by the empty name when there is a parent
 ReadAttributesSection ==
   /\ pc = "section" /\ L(offset).a = "attributes"
   /\ LET r == ReadBlockItems(offset + 1)
-         els == AttrFold(r.items, "none", <<>>)
-         hz == AttrHazards(r.items, <<>>)
+         els == AttrFold(r.items, <<>>)
          flushed == Flush(sections, cur)
-         done == IF els # <<>> THEN Append(flushed, SecRec("attributes", TitleOf(L(offset)), offset, <<>>, els, <<>>)) ELSE flushed
-     IN IF r.crash # "" THEN Crash(r.crash, "_read_block_items") /\ pcand' = pcand
-        ELSE IF hz # <<>>
-          THEN \E o \in {HazardOutcome(hz, c) : c \in {"none", "alias", "other"}} :       \* the parents split by what the look-ups do
-                 LET P == UNION {ParentClass[c] : c \in {c2 \in {"none", "alias", "other"} : HazardOutcome(hz, c2) = o}} IN
-                 /\ pcand \cap P # {} /\ pcand' = pcand \cap P
-                 /\ IF o = "" THEN Return(done, r.off) ELSE Crash(o, "attributes")
-        ELSE /\ pcand' = pcand /\ Return(done, r.off)
-  /\ UNCHANGED <<input, opts, excl>>
+     IN IF r.crash # "" THEN Crash(r.crash, "_read_block_items")
+        ELSE Return(IF els # <<>> THEN Append(flushed, SecRec("attributes", TitleOf(L(offset)), offset, <<>>, els, <<>>)) ELSE flushed, r.off)
+  /\ UNCHANGED <<input, opts, pcand, excl>>
 
 \* returns / yields / receives: _read_block_items_maybe(multiple=...), then one element per block item
 ReadReturnsSection ==
@@ -520,15 +518,15 @@ ReadReturnsSection ==
           /\ opts' = [opts EXCEPT ![om] = Val(multi), ![on] = Val(named)]
           /\ IF multi
                THEN LET r == ReadBlockItems(offset + 1)
-                        els == [j \in 1..Len(r.items) |-> RetEl(r.items[j], named, TRUE)]
+                        els == [j \in 1..Len(r.items) |-> RetEl(r.items[j], K, named)]
                     IN IF r.crash # "" THEN Crash(r.crash, "_read_block_items")
                        ELSE Return(IF els # <<>> THEN Append(flushed, SecRec(K, TitleOf(L(offset)), offset, <<>>, els, <<>>)) ELSE flushed, r.off)
                ELSE LET b == ReadBlock(offset + 1) IN
                     IF b.crash # "" THEN Crash(b.crash, "_read_block")
-                    \* [(new_offset, one_block.splitlines())]: an empty block gives lines == [] and lines[0] raises
-                    ELSE IF b.tl = <<>> THEN Crash("IndexError", K)
+                    \* `if not one_block: return [], new_offset`: no item, the section is falsy and dropped
+                    ELSE IF b.tl = <<>> THEN Return(flushed, b.off)
                     ELSE Return(Append(flushed, SecRec(K, TitleOf(L(offset)), offset, <<>>,
-                                   <<RetEl([first |-> b.tl[1], body |-> Tail(b.tl)], named, FALSE)>>, <<>>)), b.off)
+                                   <<RetEl([first |-> b.tl[1], body |-> Tail(b.tl)], K, named)>>, <<>>)), b.off)
   /\ UNCHANGED <<input, pcand, excl>>
 
 ReadExamplesSection ==
@@ -554,23 +552,21 @@ ReadAdmonition ==
 FirstNonBlank(tl) == LET S == {j \in 1..Len(tl) : ~IsBlank(L(tl[j]))} IN IF S = {} THEN -1 ELSE tl[CHOOSE j \in S : \A m \in S : j <= m]
 Finish ==
   /\ pc = "main" /\ offset >= N
-  /\ LET secs == IF cur # <<>> THEN Append(sections, TextSec(RStripBlank(cur))) ELSE sections IN
-     \* if returns_type_in_property_summary and sections and parent and parent.is_attribute and "property" in labels
-     \E property_summary \in BOOLEAN :
+  /\ LET secs == IF cur # <<>> THEN Append(sections, TextSec(RStripBlank(cur))) ELSE sections
+         \* if returns_type_in_property_summary and sections and sections[0].kind is text and parent and parent.is_attribute and "property" in labels
+         eligible == secs # <<>> /\ (IF secs = <<>> THEN FALSE ELSE secs[1].kind = "text")
+     IN \E property_summary \in BOOLEAN :
        IF property_summary
-         THEN /\ secs # <<>> /\ CanRead("returns_type_in_property_summary", TRUE) /\ "property" \in pcand
+         THEN /\ eligible /\ CanRead("returns_type_in_property_summary", TRUE) /\ "property" \in pcand
               /\ opts' = [opts EXCEPT !["returns_type_in_property_summary"] = "T"] /\ pcand' = {"property"} /\ excl' = excl
-              \* sections[0].value.lstrip(): the value of a non-text section is a list / an element
-              /\ IF secs[1].kind # "text"
-                   THEN /\ pc' = "crashed" /\ crash' = [exc |-> "AttributeError", at |-> "property_summary"] /\ UNCHANGED <<sections, flags>>
-                 ELSE LET fl == FirstNonBlank(secs[1].tl) IN
-                      IF fl # -1 /\ HasColon(L(fl))
-                        THEN /\ sections' = Append(secs, SecRec("returns", "none", -1, <<>>,
-                                               <<[first |-> -1, body |-> <<>>, name |-> "e", ann |-> "doc", dflt |-> "-", d |-> "c"]>>, <<>>))
-                             /\ flags' = [flags EXCEPT !.propsum = TRUE] /\ pc' = "done" /\ UNCHANGED crash
-                        ELSE /\ sections' = secs /\ pc' = "done" /\ UNCHANGED <<crash, flags>>
-         ELSE /\ secs = <<>> \/ opts["returns_type_in_property_summary"] # "T" \/ pcand # {"property"}
-              /\ excl' = (IF secs = <<>> \/ opts["returns_type_in_property_summary"] = "F" \/ "property" \notin pcand
+              /\ LET fl == FirstNonBlank(secs[1].tl) IN
+                 IF fl # -1 /\ HasColon(L(fl))
+                   THEN /\ sections' = Append(secs, SecRec("returns", "none", -1, <<>>,
+                                          <<[first |-> -1, body |-> <<>>, name |-> "e", ann |-> "doc", dflt |-> "-", d |-> "c"]>>, <<>>))
+                        /\ flags' = [flags EXCEPT !.propsum = TRUE] /\ pc' = "done" /\ UNCHANGED crash
+                   ELSE /\ sections' = secs /\ pc' = "done" /\ UNCHANGED <<crash, flags>>
+         ELSE /\ ~eligible \/ opts["returns_type_in_property_summary"] # "T" \/ pcand # {"property"}
+              /\ excl' = (IF ~eligible \/ opts["returns_type_in_property_summary"] = "F" \/ "property" \notin pcand
                             THEN excl ELSE excl \cup {<<"returns_type_in_property_summary", "property">>})
               /\ sections' = secs /\ pc' = "done" /\ UNCHANGED <<opts, pcand, crash, flags>>
   /\ UNCHANGED <<input, offset, in_code, cur>>
@@ -584,17 +580,11 @@ Done == pc = "done"
 Crashed == pc = "crashed"
 Final == Done \/ Crashed
 
-\* C12-total: no exception.  The three crash sites below are the genuine defects of the pinned tree (findings.d/C12.json);
-\* the *_defect configurations check NoCrash itself and document them with a counterexample.
-KnownCrashSites == {<<"IndexError", "returns">>, <<"IndexError", "yields">>, <<"IndexError", "receives">>,
-                    <<"AttributeError", "property_summary">>, <<"ValueError", "attributes">>, <<"AliasResolutionError", "attributes">>}
+\* C12-total: no exception.  (The crash transitions of the five defects repaired in /repo - findings.d/C12.json, status fixed -
+\* are gone from this transcription; the small alphabet "defect" on which they were reachable is kept as a regression domain,
+\* DocGoogle_regress.cfg, whose every final state is replayed on the real parser.)
 NoCrash == ~Crashed
-\* one invariant per documented defect (checked - and violated - in DocGoogle_defect.cfg)
-NoIndexErrorSingleItemBlock == ~(Crashed /\ crash.exc = "IndexError" /\ crash.at \in RetKinds)
-NoAttributeErrorPropertySummary == ~(Crashed /\ crash.at = "property_summary")
-NoValueErrorEmptyAttributeName == ~(Crashed /\ crash.at = "attributes" /\ crash.exc = "ValueError")
-NoAliasResolutionErrorInAttributes == ~(Crashed /\ crash.exc = "AliasResolutionError")
-NoCrashBeyondKnown == Crashed => <<crash.exc, crash.at>> \in KnownCrashSites
+NoCrashBeyondKnown == NoCrash
 
 \* C12-terminating: every step of the main loop (with or without a reader) moves the offset forward
 Progress == [][(pc \in {"section", "admonition"} \/ (pc = "main" /\ pc' = "main")) => (Crashed' \/ offset' > offset)]_vars
@@ -626,9 +616,6 @@ PlainText == (Done /\ NoSyntax /\ ~flags.ignored /\ ~flags.propsum)
 
 \* C13: the sections are the structure that was written
 ParsesBack == (Mode = "struct" /\ Final) => (Done /\ sections = expect)
-\* ... except for the known leak of an attribute's annotation into the next untyped attribute (findings.d/C13.json)
-AttrLeak == \E j \in 1..Len(sections) : sections[j].kind = "attributes" /\ \E m \in 1..Len(sections[j].items) : sections[j].items[m].ann = "prev"
-ParsesBackBeyondKnown == (Mode = "struct" /\ Final /\ ~(Done /\ AttrLeak)) => (Done /\ sections = expect)
 
 \* every state is checked against the invariants; the replay harness gets the final states whose checksum is 0 mod EmitMod
 LineCode(ln) == ln.ind + (CASE ln.k = "blank" -> 1 [] ln.k = "text" -> 2 [] ln.k = "sec" -> 3 [] ln.k = "adm" -> 5 [] ln.k = "item" -> 7 [] ln.k = "fence" -> 11 [] OTHER -> 13)
@@ -641,5 +628,5 @@ EmitCase ==
        THEN PrintT(<<"CASE", ToJson([lines |-> lines, opts |-> opts, pcand |-> pcand, excl |-> excl, outcome |-> pc, crash |-> crash,
                                      sections |-> sections, flags |-> flags])>>)
        ELSE PrintT(<<"CASE", ToJson([lines |-> lines, opts |-> opts, pcand |-> pcand, excl |-> excl, outcome |-> pc, crash |-> crash,
-                                     sections |-> sections, flags |-> flags, expect |-> expect, sig |-> sig])>>)
+                                     sections |-> sections, flags |-> flags, expect |-> expect, sig |-> sig, wrap |-> wrap])>>)
 =============================================================================
